@@ -142,6 +142,22 @@ def op_member_dup(cfg, path, rnd):
     ms.append(copy.deepcopy(rnd.choice(ms)))
 
 
+def op_member_dup_other_type(cfg, path, rnd):
+    """a second member with the name of an existing one and a different field type (a dynamic array first, if any)"""
+    ms = get(cfg, path)
+    named = [m for m in ms if isinstance(m, dict) and len(m) == 1 and isinstance(list(m.values())[0], dict)]
+    dyn = [m for m in named if isinstance(list(m.values())[0].get('field-type'), dict) and
+           list(m.values())[0]['field-type'].get('class') == 'dynamic-array']
+    if not dyn and (not named or rnd.random() < 0.8):
+        ms.append({'dynq': {'field-type': {'class': 'dynamic-array', 'element-field-type': {'class': 'uint', 'size': 8}}}})
+        dyn = [ms[-1]]
+    m = rnd.choice(dyn or named)
+    n = list(m.keys())[0]
+    ft = list(m.values())[0].get('field-type')
+    other = {'class': 'str'} if isinstance(ft, dict) and ft.get('class') in ('uint', 'sint', 'uenum', 'senum') else {'class': 'uint', 'size': 16}
+    ms.insert(rnd.choice([ms.index(m) + 1, len(ms)]), {n: {'field-type': other}})
+
+
 def op_member_rename(names):
     def f(cfg, path, rnd):
         ms = get(cfg, path)
@@ -410,6 +426,7 @@ OPS = [
      op_elem({'class': 'dynamic-array', 'element-field-type': {'class': 'uint', 'size': 8}})),
     ('dynamic-array-length-property', ['darr-ft'], None, _set('length', 3)),
     ('member-duplicate', ['members'], None, op_member_dup),
+    ('member-duplicate-other-type', ['members'], None, op_member_dup_other_type),
     ('member-invalid-identifier', ['members'], None, op_member_rename(BAD_IDENS)),
     ('member-keyword', ['members'], None, op_member_rename(DOC_KEYWORDS)),
     ('member-nested-structure', ['members'], None, op_member_nested_struct),
@@ -443,6 +460,8 @@ OPS = [
     ('env-value-kind', ['env'], None, _set('flt', 1.5)),
     ('dst-id-disabled', ['tt'], count_ge('data-stream-types', 2), op_dst_id(False)),
     ('dst-id-too-small', ['tt'], count_ge('data-stream-types', 3), op_dst_id({'class': 'uint', 'size': 1})),
+    ('dst-id-enumeration-too-small', ['tt'], count_ge('data-stream-types', 3),
+     op_dst_id({'class': 'uenum', 'size': 1, 'mappings': {'A': [0], 'B': [1]}})),
     ('dst-id-signed', ['tt'], None, op_dst_id({'class': 'sint', 'size': 8})),
     ('ert-id-disabled', ['dst'], count_ge('event-record-types', 2), op_ert_id(False)),
     ('ert-id-too-small', ['dst'], None, op_three_erts_small_id),
